@@ -33,6 +33,10 @@ def make_cases(tier, rng):
             late = [{"stream": "out", "n": 300, "seed": 3000, "gap_ms": 0}, {"stream": "err", "n": 200, "seed": 3001, "gap_ms": 0},
                     {"stream": "out", "n": rng.choice([100, 2048]), "seed": 3002, "gap_ms": 1700}, {"stream": "err", "n": 1500, "seed": 3003, "gap_ms": 1700}]
             cases.append({"name": "io%d" % len(cases), "proto": proto, "pre": [], "attach_delay_ms": 0, "with_rpc": False, "script": late, "start_timeout_ms": 1000})
+    # the first host's connection goes away with output backed up; a second host reattaches to the running plugin
+    for i in range(3 if tier == "quick" else 24):
+        cases.append({"name": "io%d" % len(cases), "proto": "grpc", "kind": "handover", "pre": [], "script": [],
+                      "attach_delay_ms": 0, "with_rpc": False, "stall_ms": rng.choice([300, 600, 1000]), "on_stream": ["out", "err"][i % 2]})
     return cases
 
 
@@ -40,7 +44,8 @@ def run(tier, seed):
     rng = random.Random(seed * 40692 + 11)
     rep = vlib.Report(PROP, tier, seed, "model_checking")
     b = c02.build()
-    runs = [vlib.tlc_expect_ok("Stdio", "stdio_grpc.cfg"), vlib.tlc_expect_ok("Stdio", "stdio_netrpc.cfg")]
+    runs = [vlib.tlc_expect_ok("Stdio", "stdio_grpc.cfg"), vlib.tlc_expect_ok("Stdio", "stdio_netrpc.cfg"), vlib.tlc_expect_ok("Stdio", "stdio_handover.cfg")]
+    vlib.tlc_expect_violation("Stdio", "stdio_requeue.cfg", "Run")
     vlib.tlc_expect_violation("Stdio", "stdio_crosstag.cfg", "NoCrossing")
     vlib.tlc_expect_violation("Stdio", "stdio_reuse.cfg", "Prefix")
     cases = make_cases(tier, rng)
@@ -59,11 +64,11 @@ def run(tier, seed):
     r2, dev = vlib.judge_observations("TraceStdio", "trace_stdio.cfg", obs_list, "c11")
     for name in dev:
         o, c = obs[name], by[name]
-        kind = "crossed" if any(k.startswith("crossed_") for k in o["out"]) else ("garbage" if any(o["out"]["garbage"].values()) else "lost")
+        kind = "handover" if c.get("kind") == "handover" else "crossed" if any(k.startswith("crossed_") for k in o["out"]) else ("garbage" if any(o["out"]["garbage"].values()) else "lost")
         rep.violation("c11:%s:%s" % (c["proto"], kind),
                       "%s, %d writes before attach, %d after%s: bytes per stream got/expected out=%s err=%s, %s -- not what Stdio.tla allows" % (
                           c["proto"], len(c["pre"]), len(c["script"]), ", RPC traffic" if c["with_rpc"] else "", o["out"].get("bytes_out"), o["out"].get("bytes_err"),
-                          json.dumps({k: v for k, v in o["out"].items() if k.startswith(("first_mismatch", "crossed", "garbage", "alive", "err"))})),
+                          json.dumps({k: v for k, v in o["out"].items() if k.startswith(("first_mismatch", "crossed", "garbage", "alive", "err", "b_", "first_"))})),
                       {"case": c, "observation": o})
     rep.coverage.update({
         "states": sum(r["distinct"] for r in runs), "transitions": sum(r["generated"] for r in runs), "traces_validated_against_impl": len(obs_list),
